@@ -54,4 +54,22 @@ theorem negative_height_rejected :
              whole := false } []) = some (0, "nonneg") := by
   decide +kernel
 
+/-- A 100 × 13 auto-sized flow box at the origin. -/
+def plainU : UsedCheck.UBox :=
+  { x := 0, y := 0, w := 100, h := 13, ml := 0, mr := 0, mt := 0, mb := 0, pl := 0, pr := 0, pt := 0, pb := 0,
+    bl := 0, br := 0, bt := 0, bb := 0, minW := 0, maxW := none, minH := 0, maxH := none, mlAuto := false,
+    mrAuto := false, wAuto := true, hAuto := true, kind := .flow, rtl := false, whole := true }
+
+open Wp.UsedCheck in
+/-- `empty-first-child-above-parent`: the shape the layout produces for `<body><div></div><div style="margin-top:3px;
+height:10px"></div></body>` — `<body>` at y = 3 after the margin collapsed through the empty first child, which
+stayed at y = 0 — is rejected by the checker with `stack` at `<body>` (subtree 1): clause (f)(g) "children lie inside
+the parent's content box" is false of that page. -/
+theorem empty_first_child_rejected :
+    firstBad 0 { cx := 0, pw := 100, prtl := false }
+      (.mk plainU [.mk { plainU with y := 3, h := 10 }
+        [.mk { plainU with h := 0 } [], .mk { plainU with mt := 3, h := 10, hAuto := false } []]]) =
+      some (1, "stack") := by
+  decide +kernel
+
 end Wp.Witness.C05Shrink
